@@ -10,7 +10,7 @@
 From Coq Require Import List Bool Arith Ascii String NArith Permutation Sorted.
 From UV.Base Require Import Order SortUniq Res.
 From UV.Py Require Import PyStr.
-From UV.Schemes Require Import Common Generic LegacyOpenssl Gentoo GentooProofs Debian DebianProofs Semver SemverProofs Gem GemProofs.
+From UV.Schemes Require Import Common Generic LegacyOpenssl Gentoo GentooProofs Debian DebianProofs Semver SemverProofs Gem GemProofs Rpm RpmProofs.
 Import ListNotations.
 
 (* the laws, for any comparison that is a total preorder: < is cmp = Lt, > is cmp = Gt *)
@@ -81,6 +81,10 @@ Theorem C01_gem :
   TPO gem_order /\ forall a b, gem_cmp a b = gem_order a b /\ gem_ops a b = ops_of (gem_order a b).
 Proof. split; [exact gem_tpo|]. intros a b. split; [apply gem_cmp_order|apply gem_ops_spec]. Qed.
 
+Theorem C01_rpm :
+  TPO rpm_order /\ forall a b, rpm_compare a b = rpm_order a b /\ rpm_ops a b = ops_of (rpm_order a b).
+Proof. split; [exact rpm_tpo|]. intros a b. split; [apply rpm_compare_order|apply rpm_ops_spec]. Qed.
+
 (* Non-vacuity: accepted versions have the shape the theorems need, and the orders are not trivial *)
 Example C01_nonvacuous :
   gok (list_ascii_of_string "1.02_alpha1_p-r3") = true /\
@@ -101,3 +105,4 @@ Print Assumptions C01_gentoo_alpine.
 Print Assumptions C01_deb.
 Print Assumptions C01_semver_family.
 Print Assumptions C01_gem.
+Print Assumptions C01_rpm.
